@@ -223,7 +223,7 @@ def shard_fn(shard, nshards, seed, tier, exe, ntrees):
     # dropped.  Batch mode cannot branch either -- so always emit "PUTIFOWNED 5" which the check resolves in a second pass.
     # Simplest sound scheme: run every case twice; pass 1 learns the outcomes, pass 2 contains the right PUTs.
     pass1 = [(cid, [c for c in cmds if c != "PUT5?"]) for cid, cmds in cases]
-    res1, cr1 = core.run_script(exe, pass1, tag="c12a")
+    res1, cr1 = core.run_script(exe, pass1, tag="c12a", env=core.ambient_env(sh, shard))
     final = []
     for cid, cmds in cases:
         if cid not in res1:
@@ -243,7 +243,7 @@ def shard_fn(shard, nshards, seed, tier, exe, ntrees):
                 last_set_rc = int(ln.split()[1])
             out.append(c)
         final.append((cid, out))
-    results, crashes = core.run_script(exe, final, tag="c12")
+    results, crashes = core.run_script(exe, final, tag="c12", env=core.ambient_env(sh, shard))
     crashes += [c for c in cr1 if c.cid not in {x.cid for x in crashes}]
     cmdmap = dict(final)
     cmdmap.update({cid: cm for cid, cm in pass1 if cid not in cmdmap})
